@@ -348,8 +348,6 @@ class Translator:
         chain = ""
         cur = ind
         for case in s.cases:
-            if case.guard is not None:
-                raise Unsupported("match guard")
             pat = case.pattern
             if not (
                 isinstance(pat, ast.MatchSequence)
@@ -357,8 +355,10 @@ class Translator:
             ):
                 raise Unsupported("match pattern")
             lit = "(" + ", ".join("true" if p.value else "false" for p in pat.patterns) + ")"  # type: ignore[attr-defined]
+            # `case <literals> if <guard>:` — taken when the pattern matches AND the guard holds, else the next case
+            test = f"{m} = {lit}" if case.guard is None else f"{m} = {lit} ∧ ({self.prop(case.guard, env)})"
             chain += (
-                f"{cur}if {m} = {lit} then\n"
+                f"{cur}if {test} then\n"
                 + self.block(case.body + rest, env, cur + "  ")
                 + f"\n{cur}else\n"
             )
